@@ -63,9 +63,9 @@ func requestWritesUncached(p *Prog, fn *ssa.Function) map[string][]ssa.Instructi
 		bt := w.Base.Type()
 		switch {
 		case isPtrTo(bt, "net/http", "Request"):
-			out["Request."+w.Field.Name()] = append(out["Request."+w.Field.Name()], w.Store)
+			out["Request."+N(w.Field)] = append(out["Request."+N(w.Field)], w.Store)
 		case isPtrTo(bt, "net/url", "URL"):
-			out["URL."+w.Field.Name()] = append(out["URL."+w.Field.Name()], w.Store)
+			out["URL."+N(w.Field)] = append(out["URL."+N(w.Field)], w.Store)
 		}
 	}
 	for _, m := range HeaderMutations(fn) {
@@ -84,7 +84,7 @@ func requestWritesUncached(p *Prog, fn *ssa.Function) map[string][]ssa.Instructi
 			return
 		}
 		fa, ok := u.X.(*ssa.FieldAddr)
-		if !ok || !isPtrTo(fa.X.Type(), "net/http", "Request") || FieldOfAddr(fa).Name() != "Body" {
+		if !ok || !isPtrTo(fa.X.Type(), "net/http", "Request") || N(FieldOfAddr(fa)) != "Body" {
 			return
 		}
 		for _, ref := range *u.Referrers() {
@@ -283,8 +283,8 @@ func runC13(c *Ctx) {
 			// the save: store to operation.saveFld from the request's cell, before the first mutation
 			okSave, why := checkSave(p, pre, writesBy, cell, saveFld)
 			c.Check(okSave, "C13.1", FuncName(entry), dname+":"+cell, d.Pos(),
-				"cell "+cell+" (written by "+joinStr(uniq(cells[cell]))+") is restored from operation."+saveFld.Name()+" on every path to the dispatch, and that field is saved from the request before the first mutation",
-				"cell "+cell+" is restored from operation."+saveFld.Name()+" but "+why)
+				"cell "+cell+" (written by "+joinStr(uniq(cells[cell]))+") is restored from operation."+N(saveFld)+" on every path to the dispatch, and that field is saved from the request before the first mutation",
+				"cell "+cell+" is restored from operation."+N(saveFld)+" but "+why)
 		}
 	}
 
@@ -355,9 +355,9 @@ func sideCell(v ssa.Value) (sideRef, bool) {
 	var recv ssa.Value
 	var method string
 	if cc.IsInvoke() {
-		recv, method = cc.Value, cc.Method.Name()
+		recv, method = cc.Value, N(cc.Method)
 	} else if sc := cc.StaticCallee(); sc != nil && len(cc.Args) == 1 && sc.Signature.Recv() != nil {
-		recv, method = cc.Args[0], sc.Name()
+		recv, method = cc.Args[0], N(sc)
 	} else {
 		return sideRef{}, false
 	}
@@ -373,11 +373,11 @@ func sideCell(v ssa.Value) (sideRef, bool) {
 	if !ok {
 		return sideRef{}, false
 	}
-	side := FieldOfAddr(outer).Name()
+	side := N(FieldOfAddr(outer))
 	if side != "client" && side != "server" {
 		return sideRef{}, false
 	}
-	return sideRef{side, FieldOfAddr(inner).Name(), method}, true
+	return sideRef{side, N(FieldOfAddr(inner)), method}, true
 }
 
 func dispatchLabel(d ssa.CallInstruction) string {
@@ -385,7 +385,7 @@ func dispatchLabel(d ssa.CallInstruction) string {
 	cc := d.Common()
 	if cc.IsInvoke() {
 		if f := LoadedField(cc.Value); f != nil {
-			return f.Name()
+			return N(f)
 		}
 	}
 	return CalleeName(d)
@@ -426,9 +426,9 @@ func findRestore(p *Prog, fn *ssa.Function, cell string) ([]*ssa.Store, *types.V
 		name := ""
 		switch {
 		case isPtrTo(bt, "net/http", "Request"):
-			name = "Request." + w.Field.Name()
+			name = "Request." + N(w.Field)
 		case isPtrTo(bt, "net/url", "URL"):
-			name = "URL." + w.Field.Name()
+			name = "URL." + N(w.Field)
 		}
 		if name != target {
 			continue
@@ -463,11 +463,11 @@ func checkSave(p *Prog, pre map[*ssa.Function]bool, writesBy map[*ssa.Function]m
 			for _, l := range Origins(st.Val) {
 				switch {
 				case cell == "Header-contents" && l.Kind == "call" && IsCallTo(l.Call, "(net/http.Header).Clone"):
-					if lf := LoadedField(l.Call.Common().Args[0]); lf != nil && lf.Name() == "Header" {
+					if lf := LoadedField(l.Call.Common().Args[0]); lf != nil && N(lf) == "Header" {
 						ok = true
 					}
 				case cell != "Header-contents" && l.Kind == "load" && l.Field != nil:
-					if "Request."+l.Field.Name() == wantField || "URL."+l.Field.Name() == wantField {
+					if "Request."+N(l.Field) == wantField || "URL."+N(l.Field) == wantField {
 						ok = true
 					}
 				}
@@ -487,7 +487,7 @@ func checkSave(p *Prog, pre map[*ssa.Function]bool, writesBy map[*ssa.Function]m
 	for _, f := range p.Funcs {
 		for _, st := range StoresToField(f, saveFld) {
 			if st != saveSt && !baseFresh(st.Addr.(*ssa.FieldAddr).X) {
-				return false, "operation." + saveFld.Name() + " is also stored in " + FuncName(f) + " (the saved original can be overwritten)"
+				return false, "operation." + N(saveFld) + " is also stored in " + FuncName(f) + " (the saved original can be overwritten)"
 			}
 		}
 	}
